@@ -305,6 +305,8 @@ type lsnStep struct {
 	//            sends (the rest of) its request only after the provider has aged by delay
 	c     int
 	delay int64
+	forge  int64 // > 0: the request carries a cookie whose key id field is this (not yet issued) id
+	wantID int64 // > 0 (planned follow-up): use the newest cookie under this key id
 }
 
 type lsnObs struct {
@@ -509,6 +511,15 @@ func (e *lsnEnv) slowKeyExchange(quic bool, pre int, delay int64) (o lsnObs) {
 // request sends one NTS request with cookie c through its socket; lo/hi are set by the caller.
 func (e *lsnEnv) request(st lsnStep) (o lsnObs) {
 	ck := e.cookies[st.c]
+	if st.forge > 0 {
+		// a cookie left over from "before a restart" / made up: the id field names a key the
+		// provider has not made (yet); the rest is a genuine cookie's bytes
+		var ec ntske.EncryptedServerCookie
+		if ec.Decode(ck.b) == nil {
+			ec.ID = uint16(st.forge)
+			ck.b = ec.Encode()
+		}
+	}
 	var ntpreq ntp.Packet
 	ntpreq.SetVersion(ntp.VersionMax)
 	ntpreq.SetMode(ntp.ModeClient)
@@ -633,7 +644,21 @@ func (g *lsnGen) next() []lsnStep {
 	if len(g.pend) > 0 {
 		st := g.pend[0]
 		g.pend = g.pend[1:]
-		if st[0].t > e.vnow()+5*ms && g.clear(st[0].t, -1) {
+		okp := true
+		if st[0].wantID > 0 {
+			st[0].c = -1
+			for i := len(e.cookies) - 1; i >= 0; i-- {
+				if e.cookies[i].id == st[0].wantID {
+					st[0].c = i
+					break
+				}
+			}
+			okp = st[0].c >= 0
+		}
+		if st[0].t <= e.vnow()+5*ms {
+			st[0].t = e.vnow() + 20*ms
+		}
+		if okp && g.clear(st[0].t, -1) {
 			return st
 		}
 	}
@@ -712,6 +737,29 @@ func (g *lsnGen) next() []lsnStep {
 					g.pend = append(g.pend, []lsnStep{f2})
 				}
 			}
+			return []lsnStep{st}
+		case mode >= 94 && e.maxID < 60000: // a cookie naming the next key id (or the one after), then, once the
+			// provider has made that key, genuine cookies under it through the same socket and another
+			k := int64(1 + r.Intn(2))
+			st.req, st.forge, st.c = true, e.maxID+k, g.pickCookie(-1)
+			st.t = now + lib.Pick(r, r.Range(10*ms, sec), r.Range(sec, hour))
+			if !g.clear(st.t, -1) {
+				continue
+			}
+			t := st.t
+			for j := int64(0); j < k; j++ { // key exchanges right after each renewal instant
+				t2 := e.keys[e.maxID] + (j+1)*(renewal+2*sec)
+				if t2 <= t+sec {
+					t2 = t + renewal + 2*sec
+				}
+				t = t2
+				g.pend = append(g.pend, []lsnStep{{t: t, lsn: r.Intn(2)}})
+			}
+			f := lsnStep{req: true, t: t + lib.Pick(r, 50*ms, sec, hour), lsn: st.lsn, wantID: st.forge}
+			g.pend = append(g.pend, []lsnStep{f})
+			f2 := f
+			f2.t, f2.lsn = f.t+lib.Pick(r, 300*ms, sec), g.sock(st.lsn%2)
+			g.pend = append(g.pend, []lsnStep{f2})
 			return []lsnStep{st}
 		case mode < 54: // a slow client: handshake now, its request only after the provider has aged
 			st.lsn = 2 + r.Intn(3) // 2: TLS, silent until then; 3: QUIC, 4: TLS, the first bytes of the request sent before
@@ -795,6 +843,8 @@ func lsnChild(seed uint64, nsteps int, script string) {
 				if len(n.list) > 3 {
 					st.delay = n.i(3)
 				}
+			} else if n.i(0) == 2 {
+				st = lsnStep{req: true, t: n.i(1), lsn: int(n.i(2)), forge: n.i(3)}
 			} else {
 				st = lsnStep{req: true, t: n.i(1), lsn: int(n.i(2)), c: int(n.i(3))}
 			}
@@ -852,6 +902,13 @@ func lsnChild(seed uint64, nsteps int, script string) {
 		}
 		for j, st := range sts {
 			o := os_[j]
+			if st.req && st.forge > 0 {
+				tags["future"] = true
+				continue
+			}
+			if st.req && st.wantID > 0 && o.ans == 1 {
+				tags["futureok"] = true
+			}
 			if st.req {
 				tags["ip"] = st.lsn%2 == 0 || tags["ip"]
 				tags["scion"] = st.lsn%2 == 1 || tags["scion"]
@@ -891,7 +948,9 @@ func lsnChild(seed uint64, nsteps int, script string) {
 	}
 	as, outs := make([]string, len(steps)), make([]string, len(steps))
 	for i, st := range steps {
-		if st.req {
+		if st.req && st.forge > 0 {
+			as[i] = lib.L(lib.V("2", lib.I(st.t), lib.I(int64(st.lsn)), lib.I(st.forge)))
+		} else if st.req {
 			as[i] = lib.L(lib.V("1", lib.I(st.t), lib.I(int64(st.lsn)), lib.I(int64(st.c))))
 		} else {
 			as[i] = lib.L(lib.V("0", lib.I(st.t), lib.I(int64(st.lsn)), lib.I(st.delay)))
